@@ -30,7 +30,7 @@ RESULTS = {
  "C13-4": ("C13", ""),
  "C14-1": ("C14", ""), "C14-2": ("C14", ""), "C14-3": ("C14", ""), "C14-4": ("C14", ""),
  "C15-1": ("C15", ""), "C15-2": ("C15", ""),
- "C15-3": ("", "MISSED: a torn read between two atomics of nanosecond width, inside a region the unchanged code protects with a mutex; yield sites cannot be placed inside mutex-protected regions (DESIGN 8.6)"),
+ "C15-3": ("C15", "after simulation-aware locks, automatic per-statement yield points in receiver.go and the concurrent-callers mode were added (DESIGN 8.6)"),
  "C15-4": ("C15", ""),
  "C16-1": ("C16", ""), "C16-2": ("C16", "after the OnError-vs-Close oracle was added"),
  "C16-3": ("C16", "after the capacity workload behind the media entry points was added"),
